@@ -149,3 +149,26 @@ Definition project_flat_b (n : nat) (rows : list (list (Q * Q))) : option (list 
   let ops := flat_map (fun kr => map (lower_op_b n (fst kr)) (snd kr)) (indexed rows) ++
              flat_map (fun kr => map (upper_op_b n (fst kr)) (snd kr)) (indexed rows) in
   if in_range len ops then Some (scatter (repeat 0 len) ops) else None.
+
+(* ---------- round 3: the scalar loss of learn(per=True) and the clamp + renormalisation of the head ---------- *)
+Fixpoint zipmul (a b : list Q) : list Q :=
+  match a, b with x :: a', y :: b' => Qred (x * y) :: zipmul a' b' | _, _ => [] end.
+Definition qmean (l : list Q) : Q := Qsum l / inject_Z (Z.of_nat (length l)).           (* torch.mean *)
+(* elementwise_loss as learn() holds it before prior_eps is added *)
+Definition learn_elementwise (c : cfg) (gamma : Q) (n : nat) (m : mode) (ss1 ssn : list sample) : option (list Q) :=
+  learn_priorities c gamma n 0 m ss1 ssn.
+(* loss = torch.mean(elementwise_loss * weights.reshape(-1))  (50db4ca): the importance weights enter here and only here *)
+Definition learn_loss (c : cfg) (gamma : Q) (n : nat) (m : mode) (ss1 ssn : list sample) (ws : list Q) : option Q :=
+  option_map (fun el => qmean (zipmul el ws)) (learn_elementwise c gamma n m ss1 ssn).
+
+(* DuelingDistributionalMLP.forward, q=False: softmax(...).clamp(min=1e-3) then x / x.sum(-1)  (92c49c5); the softmax output is an input *)
+Definition clamp_min (m : Q) (l : list Q) : list Q := map (fun x => Qmax2 x m) l.
+Definition renorm (l : list Q) : list Q := let s := Qsum l in map (fun x => Qred (x / s)) l.
+Definition head_dist (soft : list Q) : list Q := renorm (clamp_min (1 # 1000) soft).
+
+(* DuelingDistributionalMLP.forward: x = value + advantage - advantage.mean(1, keepdim=True)  (value: atoms; advantage: actions x atoms) *)
+Definition col_mean (adv : list (list Q)) (i : nat) : Q :=
+  fold_right (fun row s => nth i row 0 + s) 0 adv / inject_Z (Z.of_nat (length adv)).
+Definition dueling_row (v : list Q) (adv : list (list Q)) (row : list Q) : list Q :=
+  map (fun i => Qred (nth i v 0 + nth i row 0 - col_mean adv i)) (seq 0 (length v)).
+Definition dueling (v : list Q) (adv : list (list Q)) : list (list Q) := map (dueling_row v adv) adv.
